@@ -844,6 +844,11 @@ class Interp:
             return st
         if isinstance(op, (ast.Lt, ast.LtE, ast.Gt, ast.GtE)):
             okc, c = self.p.try_const(r, fn.module, fn.cls)
+            okl, cl = self.p.try_const(l, fn.module, fn.cls)
+            if okl and not okc and isinstance(cl, int) and not isinstance(cl, bool):
+                # constant on the left: `c <= x` is `x >= c`
+                mirror = {ast.Lt: ast.Gt, ast.LtE: ast.GtE, ast.Gt: ast.Lt, ast.GtE: ast.LtE}[type(op)]()
+                return self.narrow_cmp(st, r, mirror, l, pol, fn)
             lv = self.ev(st, l, fn)
             bad = lv.atoms - set(INT_ATOMS) - {"float", "True", "False", "other"}
             if bad and not (isinstance(l, ast.Call)):
